@@ -695,8 +695,16 @@ def case_scrip(ctx, case, sc):
     else:
         src = ds
     # Lean model on order-preserving integer keys of the corner coordinates
-    keys = " ".join([str(len(faces))] + [" ".join([str(w)] + [f"{key_of_float(a)} {key_of_float(b)}" for a, b in zip(r1, r2)])
-                                         for r1, r2 in zip(clon.tolist(), clat.tolist())])
+    def enc_keys(rows_lon, rows_lat):
+        return " ".join([str(len(rows_lon))] + [" ".join([str(len(r1))] + [f"{key_of_float(a)} {key_of_float(b)}" for a, b in zip(r1, r2)])
+                                                for r1, r2 in zip(rows_lon, rows_lat)])
+
+    keys = enc_keys(clon.tolist(), clat.tolist())
+    fkeys = enc_keys([[lon[v] for v in f] for f in faces], [[lat[v] for v in f] for f in faces])
+    # the source is Lean's `encScripRow w` of the faces and meets the hypothesis of `scrip_positions`
+    if d.ask("C01.scrip_wf", w, fkeys, keys) != "1":
+        ctx.hit("outside-quantifier(scrip: last two corners coincide)")
+        return
     tk = common.Tok(d.ask("C01.scrip", keys))
     nodes = tk.pairs()
     mt = tk.rows()
